@@ -6,14 +6,18 @@
    Grammar: Format.item / wf_items / unparse; texts = the text each item stands for. *)
 From CelloV Require Import Generated Format FormatProofs.
 
-(* data re-extracted from the C source has the values the proofs use; when String_Format_To takes short texts
-   from the stack buffer its measuring vsnprintf wrote into (size < string_fmt_stack_limit), that buffer of
-   string_fmt_stack_cap bytes holds the complete text and its NUL - for every size *)
+(* data re-extracted from the C source is admissible: the skip after "%%" is 2; the piece buffer (heap of
+   strlen+print_buf_extra bytes, or a stack array when the format is short) has room for the whole format text and
+   a NUL, for EVERY format text; String_Format_To reserves the NUL; when it takes short texts from the stack buffer
+   its measuring vsnprintf wrote into (size < string_fmt_stack_limit), that buffer of string_fmt_stack_cap bytes
+   holds the complete text and its NUL, for every size; File_Format_To returns vfprintf's count; print_to_with
+   consists of accepted statement forms *)
 Theorem source_constants :
-  print_pct_skip = 2 /\ print_buf_extra = 1 /\ string_fmt_room = 1 /\ file_fmt_returns_count = true /\ print_shape_ok = true
+  print_pct_skip = 2 /\ (1 <= print_buf_extra /\ forall fmt, length fmt < bufsize fmt)
+  /\ string_fmt_room = 1 /\ file_fmt_returns_count = true /\ print_shape_ok = true
   /\ (forall size, size < string_fmt_stack_limit -> size + string_fmt_room <= string_fmt_stack_cap).
 Proof.
-  exact (conj FormatProofs.pct_skip_is_2 (conj FormatProofs.buf_extra_is_1
+  exact (conj FormatProofs.pct_skip_is_2 (conj (conj FormatProofs.buf_extra_ge_1 FormatProofs.bufsize_gt)
           (conj (proj1 FormatProofs.source_shape) (conj (proj1 (proj2 FormatProofs.source_shape))
             (conj (proj2 (proj2 FormatProofs.source_shape)) FormatProofs.stack_buffer_holds_text))))).
 Qed.
@@ -154,12 +158,20 @@ Theorem scanner_in_bounds : forall (V : Type) (render : list byte -> ckind -> V 
 Proof. exact FormatProofs.print_to_in_bounds. Qed.
 Print Assumptions scanner_in_bounds.
 
-(* the bound checks of the model are not vacuous: outside the grammar (a lone '%') the piece buffer
-   IS overrun by one byte, and "a%" makes the scanner walk past the NUL unless libc refuses "%" *)
+(* the bound checks of the model are not vacuous: a write at or behind the capacity of the piece buffer is
+   refused, a read behind the NUL is refused, and outside the grammar they fire: a lone '%' ends in Crash (with
+   malloc(strlen+1) its NUL write overruns the buffer by one byte; with a roomier buffer the scanner walks past
+   the terminator), and so does "a%" unless libc refuses "%" *)
 Example scanner_in_bounds_needs_wellformed :
-  (forall k pos a, print_to nat ex_render ex_show k pos (cons PCT nil) (cons a nil) = OCrash)
+  (forall fmt start n, bufsize fmt <= n -> buf_put fmt start n = None)
+  /\ (forall fmt i, length fmt < i -> rd fmt i = None)
+  /\ (forall k pos a, print_to nat ex_render ex_show k pos (cons PCT nil) (cons a nil) = OCrash)
+  /\ (andb (Nat.eqb print_buf_extra 1) (Nat.eqb print_buf_stack_cap 0) = true -> buf_put (cons PCT nil) 0 2 = None)
   /\ print_to nat (fun _ _ _ => Some nil) ex_show (SFile nil) 0 (cons 97 (cons PCT nil)) (cons 1 nil) = OCrash.
-Proof. exact (conj (FormatProofs.lone_percent_crashes nat ex_render ex_show) (proj1 FormatProofs.trailing_percent_crashes)). Qed.
+Proof.
+  exact (conj FormatProofs.buf_put_refuses (conj FormatProofs.rd_beyond (conj FormatProofs.lone_percent_crashes
+          (conj FormatProofs.lone_percent_overruns_tight_buffer (proj1 FormatProofs.trailing_percent_crashes))))).
+Qed.
 
 (* the loops of the model never run out of fuel, for ANY format text and arguments *)
 Theorem model_fuel_adequate : forall (V : Type) (render : list byte -> ckind -> V -> option (list byte)) (show : V -> list byte)
